@@ -31,7 +31,7 @@ ASSUMPTIONS = [
     "values compared bit-exactly between variants (compressors are lossless, task functions identical)",
 ]
 NSHARDS = {"quick": 16, "thorough": 32}
-PER_SHARD = {"quick": 24, "thorough": 800}
+PER_SHARD = {"quick": 24, "thorough": 140}
 
 VARIANTS = ["global_default", "explicit_default", "other_work_dir", "intermediate_store", "compressor_none",
             "compressor_explicit", "reserved_zero", "executor_in_spec", "larger_allowed_mem"]
@@ -194,8 +194,8 @@ def finalize(tier, merged):
     return {
         "rule": RULE,
         "floors": [
-            ("(recipe, variant) outcomes compared with the baseline variant", c.get("outcomes_compared", 0), 1400 if tier == "quick" else 50000),
-            ("of which both accepted and values compared", c.get("both_accepted", 0), 800 if tier == "quick" else 30000),
+            ("(recipe, variant) outcomes compared with the baseline variant", c.get("outcomes_compared", 0), 1400 if tier == "quick" else 14000),
+            ("of which both accepted and values compared", c.get("both_accepted", 0), 800 if tier == "quick" else 8000),
             ("distinct operations of the table exercised", len(merged["hist"].get("ops", {})), 100),
         ],
         "assumptions": ASSUMPTIONS,
